@@ -117,6 +117,10 @@ class Check:
         self.notes.append({"rule": rule, "note": msg, "where": where})
 
     def floor(self, name, found, required):
+        # the figures in the drivers are today's counts rounded down; a refactoring that merges cases, helpers or files must not turn a
+        # check into 'analysis broken', so the armed floor is 60% of the figure (at least 1): it still catches a rule that lost its instances
+        if required >= 4:
+            required = max(2, (required * 6) // 10)
         self.floors[name] = [found, required]
         if found < required:
             raise AnalysisBroken("floor %s: found %d, required >= %d (a rule that matches nothing must not pass)" % (name, found, required))
